@@ -329,9 +329,14 @@ def prop_csc(c):
 @op("prop.c04bec2")
 def prop_c04bec2(k, bs, cs, es, ephs, what, stride, offset):
     key, comps = unhx(k), b3.parse_comps(cs)
-    with Oracle(parse_nats(ephs)):
-        f0 = Bec2File(Bf3File({}, b3.parse_comps(cs)), parse_blocks(bs), key)
-        binary = f0.to_binary(parse_encs(es))
+    try:
+        with Oracle(parse_nats(ephs)):
+            f0 = Bec2File(Bf3File({}, b3.parse_comps(cs)), parse_blocks(bs), key)
+            binary = f0.to_binary(parse_encs(es))
+    except OverflowError:
+        if b3.unrepresentable(comps):
+            return "ok 0 writer-rejects OverflowError"
+        raise
     encs = parse_encs(es)
 
     def read(t):
@@ -347,8 +352,10 @@ def prop_c04bec2(k, bs, cs, es, ephs, what, stride, offset):
     blocks0 = known(base)
 
     def same(f, text_prefix=False):
-        if f.session_key != key:
-            return f"session key {f.session_key.hex()} instead of {key.hex()}"
+        # reference = what the UNDAMAGED file reads as (a customer key placed over the session-key field makes even that
+        # differ from the key the writer was given: write/read agreement is C07's subject, not damage detection)
+        if f.session_key != base.session_key:
+            return f"session key {f.session_key.hex()} instead of {base.session_key.hex()}"
         d = b3.same_file(f.bf3file, f.bf3file.comments if text_prefix else {}, base.bf3file.components)
         if d:
             return d
